@@ -33,7 +33,7 @@ ASSUMPTIONS = [
     "the deprecated OrderedMultiDict pair is not exercised",
 ]
 TIERS = {"quick": dict(nshards=16, exh_len={"MultiDict": 2, "Headers": 2, "HeaderSet": 3}, rand=900, rand_len=(3, 40)),
-         "thorough": dict(nshards=64, exh_len={"MultiDict": 3, "Headers": 3, "HeaderSet": 4}, rand=15000, rand_len=(3, 40))}
+         "thorough": dict(nshards=64, exh_len={"MultiDict": 3, "Headers": 3, "HeaderSet": 4}, rand=6000, rand_len=(3, 40))}
 EXHAUSTIVE_SUBSPACES = {
     "quick": ["all histories of length <= 2 over the fixed operation-instance sets of MultiDict (38 instances) and Headers (44), length <= 3 for HeaderSet (22), from 9 initial states each"],
     "thorough": ["all histories of length <= 3 for MultiDict and Headers from 9 initial states; length <= 4 for HeaderSet (2 initial states at length 4)"],
